@@ -28,6 +28,11 @@ type Pkg struct {
 	// DepPure: one function that is both deprecated and pure (an object
 	// carrying facts of two types); importers call it and drop the result.
 	DepPure bool `json:"dep_pure,omitempty"`
+	// GenFiles: generated files ("// Code generated ... DO NOT EDIT.") that
+	// belong to some variants of the package only: an in-package test file
+	// (with Test) and a non-test file next to an external test package (with
+	// XTest), each with a problem that checks do not report in generated code.
+	GenFiles bool `json:"gen_files,omitempty"`
 	// Plain: nothing in the package earns an analysis fact (every function
 	// has a side effect and may return nil), so its facts output is empty:
 	// the zero-length data file that all such packages share.
@@ -290,6 +295,12 @@ func (m *Mod) renderPkg(i int, out map[string]string) {
 		}
 		out[name+"/x_test.go"] = fmt.Sprintf("package %s_test\n\nimport %q\n\n// CheckF uses F.\nfunc CheckF() int { return %s.F() }\n%s", name, m.Path+"/"+name, name, clamp)
 	}
+	if p.GenFiles {
+		if p.Test {
+			out[name+"/mock_gen_test.go"] = fmt.Sprintf("// Code generated by mockgen. DO NOT EDIT.\n\npackage %s\n\n// MockSelf is generated.\nfunc MockSelf() int {\n\tm := 1\n\tm = m\n\tvar b bool\n\tif b == true {\n\t\tm++\n\t}\n\treturn m\n}\n", name)
+		}
+		out[name+"/zz_generated.go"] = fmt.Sprintf("// Code generated by gen. DO NOT EDIT.\n\npackage %s\n\n// Gen is generated.\nfunc Gen() int {\n\tg := 1\n\tg = g\n\tvar b bool\n\tif b == true {\n\t\tg++\n\t}\n\treturn g\n}\n", name)
+	}
 	if p.TagFile {
 		out[name+"/extra.go"] = fmt.Sprintf("//go:build extra\n\npackage %s\n\n// Extra exists only with the extra tag.\nfunc Extra() int {\n\ty := helper()\n\ty = y\n\treturn y\n}\n", name)
 	}
@@ -485,6 +496,7 @@ func Generate(r *Rng, npkg int, shape string, tests bool) *Mod {
 			OSFiles:    r.P(200),
 		}
 		p.DepPure = r.P(400)
+		p.GenFiles = r.P(300)
 		if r.P(250) {
 			p.Plain = true
 			if p.DepFunc == 1 {
